@@ -4,6 +4,7 @@ Exhaustive operand grids, oracle = Python ints / fractions.Fraction on the store
   Fixed p in {0(integer),1,2,3,4}: every pair of stored integers in [-150,150] (thorough [-400,400]) for + - * / == != < <= > >=,
       mul/div with round up/down; every (value, int) pair for V*int, V//int, V+int, V-int; every triple in [-20,20] (thorough [-45,45])
       for muldiv up/down; neg/abs/pos/bool; min over all lists of <= 3 values from [-6,6];
+      the same grids at a third / half of the range with display < precision (display must not touch the arithmetic);
       a boundary list {0, +-1, +-(10^p-1), +-10^p, +-(10^p+1), 10^18+-1, +-(10^40+7), ...} crossed with itself for
       p in {4,5,9,18}; missing round= raises ValueError
   Rational: all a/b, c/d with |a|,|c| <= 20, 1 <= b,d <= 9 (thorough 40, 13), same operations, mixed int operands, third operand grid for muldiv
@@ -34,6 +35,13 @@ class C12(Check):
         for p in (0, 1, 2, 3, 4):
             for a in range(-R, R + 1):
                 yield {'k': 'fx-bin', 'p': p, 'a': a, 'R': R}
+            if p:
+                # the display setting must not touch the arithmetic: same grid (smaller) with display < precision
+                for d in sorted({0, p - 1}):
+                    for a in range(-R // 3, R // 3 + 1):
+                        yield {'k': 'fx-bin', 'p': p, 'a': a, 'R': R // 3, 'd': d}
+                    for a in range(-T // 2, T // 2 + 1):
+                        yield {'k': 'fx-tri', 'p': p, 'a': a, 'T': T // 2, 'd': d}
             for a in range(-T, T + 1):
                 yield {'k': 'fx-tri', 'p': p, 'a': a, 'T': T}
             yield {'k': 'fx-misc', 'p': p}
@@ -101,7 +109,7 @@ class C12(Check):
         k = case['k']
         if k.startswith('fx'):
             p = case['p']
-            V = arith.init_fixed(p, integer=(p == 0))
+            V = arith.init_fixed(p, display=case.get('d'), integer=(p == 0))
             if V.name != ('integer' if p == 0 else 'fixed') or V.precision != p:
                 acc.violation('C12|fixed|init', 'initialize gave name %s precision %s for p=%d' % (V.name, V.precision, p), case)
             scale = 10 ** p
